@@ -1,6 +1,7 @@
 """C05 — existing bitstreams keep decoding to the same geometry, in the same order."""
 from vlib.engine import Case
 from . import corpus as K
+from . import legacycases
 
 ID = "C05"
 LEVEL = "proof"
@@ -19,8 +20,9 @@ RULE = ("every stream of the committed corpus (corpus/: the 25 legacy .drc files
 THEOREM_BACKED = ("unknown_version_rejected / newer_version_stream_rejected (version gate of the decoder model, whatever "
                   "follows the header), gate_table_mesh / gate_table_point_cloud (decision tables), "
                   "format_constants_frozen* and version_gates_frozen (constants regenerated from the source == frozen copy)")
-CORRESPONDENCE_ONLY = ("kd-tree, Edgebreaker and pre-2.0 streams are outside the decoder model: for them the check is the "
-                       "oracle on the real decoder only (frozen decode), no model decode")
+CORRESPONDENCE_ONLY = ("every corpus stream (bitstreams 1.1 .. 2.3, all methods) is also decoded by the Lean decoder model and must "
+                       "agree token for token; branches the model answers `unsupported` for (see notes/eb.md) are checked "
+                       "against the frozen decode only")
 EXPLANATION = ("history property: what is provable is the gate and the constancy of format constants; that the decoder "
                "still reads old bytes the old way is observed on the frozen corpus (exact replay: file + first "
                "differing element). Encoder bytes of the frozen inputs are re-produced and tagged encoder:same/changed "
@@ -104,7 +106,7 @@ def stream_cases(idx, streams, decodes, names=None):
         ma, mi = (int(x) for x in e["version"].split("."))
         # every stream goes to the Lean decoder model as well; what the model does not cover (legacy versions,
         # kd-tree until modelled) comes back as `unsupported …` and is then checked by the frozen-decode oracle only
-        in_model = e["size"] <= 60000
+        in_model = e["size"] <= 400000
         c = Case("dec - " + b.hex(), model=None if in_model else False, expect=model_expect,
                  oracle=frozen_oracle(n, decodes[n]),
                  tags=(e["kind"], "class:" + e["class"], "v" + e["version"], "model" if in_model else "impl-only"),
@@ -177,6 +179,12 @@ def generate(rng, tier):
             c.nontrivial = False
             cases.append(c)
     cases += encoder_cases(idx, inputs)
+    # legacy decode paths driven on purpose: the legacy files under every skip set, current streams re-labelled with the
+    # legacy prediction scheme ids, and 2.2 streams transcoded to valid 2.1 streams (each verified to decode like
+    # its 2.2 original by the real decoder) — all compared token for token with the Lean decoder model
+    cases += legacycases.stream_cases()
+    cases += legacycases.patched_scheme_cases(rng, n=24 if tier == "quick" else 120)
+    cases += legacycases.transcoded_cases(rng, n=40 if tier == "quick" else 300)
     return cases
 
 
